@@ -37,6 +37,18 @@ theories/Event/Repr_obs.vos theories/Event/Repr_obs.vok theories/Event/Repr_obs.
 theories/Event/Repr_proofs.vo theories/Event/Repr_proofs.glob theories/Event/Repr_proofs.v.beautified theories/Event/Repr_proofs.required_vo: theories/Event/Repr_proofs.v theories/Base/Prelude.vo theories/Base/Bytes.vo theories/Event/Repr.vo
 theories/Event/Repr_proofs.vio: theories/Event/Repr_proofs.v theories/Base/Prelude.vio theories/Base/Bytes.vio theories/Event/Repr.vio
 theories/Event/Repr_proofs.vos theories/Event/Repr_proofs.vok theories/Event/Repr_proofs.required_vos: theories/Event/Repr_proofs.v theories/Base/Prelude.vos theories/Base/Bytes.vos theories/Event/Repr.vos
+theories/Onto/Tree.vo theories/Onto/Tree.glob theories/Onto/Tree.v.beautified theories/Onto/Tree.required_vo: theories/Onto/Tree.v theories/Base/Prelude.vo
+theories/Onto/Tree.vio: theories/Onto/Tree.v theories/Base/Prelude.vio
+theories/Onto/Tree.vos theories/Onto/Tree.vok theories/Onto/Tree.required_vos: theories/Onto/Tree.v theories/Base/Prelude.vos
+theories/Generated/C09_gen.vo theories/Generated/C09_gen.glob theories/Generated/C09_gen.v.beautified theories/Generated/C09_gen.required_vo: theories/Generated/C09_gen.v theories/Base/Prelude.vo
+theories/Generated/C09_gen.vio: theories/Generated/C09_gen.v theories/Base/Prelude.vio
+theories/Generated/C09_gen.vos theories/Generated/C09_gen.vok theories/Generated/C09_gen.required_vos: theories/Generated/C09_gen.v theories/Base/Prelude.vos
+theories/Onto/Kinds.vo theories/Onto/Kinds.glob theories/Onto/Kinds.v.beautified theories/Onto/Kinds.required_vo: theories/Onto/Kinds.v theories/Base/Prelude.vo theories/Onto/Tree.vo theories/Generated/C09_gen.vo
+theories/Onto/Kinds.vio: theories/Onto/Kinds.v theories/Base/Prelude.vio theories/Onto/Tree.vio theories/Generated/C09_gen.vio
+theories/Onto/Kinds.vos theories/Onto/Kinds.vok theories/Onto/Kinds.required_vos: theories/Onto/Kinds.v theories/Base/Prelude.vos theories/Onto/Tree.vos theories/Generated/C09_gen.vos
+theories/Onto/Cmp_proofs.vo theories/Onto/Cmp_proofs.glob theories/Onto/Cmp_proofs.v.beautified theories/Onto/Cmp_proofs.required_vo: theories/Onto/Cmp_proofs.v theories/Base/Prelude.vo theories/Onto/Tree.vo
+theories/Onto/Cmp_proofs.vio: theories/Onto/Cmp_proofs.v theories/Base/Prelude.vio theories/Onto/Tree.vio
+theories/Onto/Cmp_proofs.vos theories/Onto/Cmp_proofs.vok theories/Onto/Cmp_proofs.required_vos: theories/Onto/Cmp_proofs.v theories/Base/Prelude.vos theories/Onto/Tree.vos
 theories/Parse/Dispatch.vo theories/Parse/Dispatch.glob theories/Parse/Dispatch.v.beautified theories/Parse/Dispatch.required_vo: theories/Parse/Dispatch.v theories/Base/Prelude.vo
 theories/Parse/Dispatch.vio: theories/Parse/Dispatch.v theories/Base/Prelude.vio
 theories/Parse/Dispatch.vos theories/Parse/Dispatch.vok theories/Parse/Dispatch.required_vos: theories/Parse/Dispatch.v theories/Base/Prelude.vos
@@ -58,6 +70,9 @@ theories/Props/C05.vos theories/Props/C05.vok theories/Props/C05.required_vos: t
 theories/Props/C07.vo theories/Props/C07.glob theories/Props/C07.v.beautified theories/Props/C07.required_vo: theories/Props/C07.v theories/Base/Prelude.vo theories/Base/Bytes.vo theories/Event/Repr.vo theories/Event/Repr_proofs.vo
 theories/Props/C07.vio: theories/Props/C07.v theories/Base/Prelude.vio theories/Base/Bytes.vio theories/Event/Repr.vio theories/Event/Repr_proofs.vio
 theories/Props/C07.vos theories/Props/C07.vok theories/Props/C07.required_vos: theories/Props/C07.v theories/Base/Prelude.vos theories/Base/Bytes.vos theories/Event/Repr.vos theories/Event/Repr_proofs.vos
+theories/Props/C09.vo theories/Props/C09.glob theories/Props/C09.v.beautified theories/Props/C09.required_vo: theories/Props/C09.v theories/Base/Prelude.vo theories/Onto/Tree.vo theories/Onto/Kinds.vo theories/Onto/Cmp_proofs.vo theories/Generated/C09_gen.vo
+theories/Props/C09.vio: theories/Props/C09.v theories/Base/Prelude.vio theories/Onto/Tree.vio theories/Onto/Kinds.vio theories/Onto/Cmp_proofs.vio theories/Generated/C09_gen.vio
+theories/Props/C09.vos theories/Props/C09.vok theories/Props/C09.required_vos: theories/Props/C09.v theories/Base/Prelude.vos theories/Onto/Tree.vos theories/Onto/Kinds.vos theories/Onto/Cmp_proofs.vos theories/Generated/C09_gen.vos
 theories/Props/C14.vo theories/Props/C14.glob theories/Props/C14.v.beautified theories/Props/C14.required_vo: theories/Props/C14.v theories/Base/Prelude.vo theories/Parse/Dispatch.vo theories/Parse/Dispatch_proofs.vo
 theories/Props/C14.vio: theories/Props/C14.v theories/Base/Prelude.vio theories/Parse/Dispatch.vio theories/Parse/Dispatch_proofs.vio
 theories/Props/C14.vos theories/Props/C14.vok theories/Props/C14.required_vos: theories/Props/C14.v theories/Base/Prelude.vos theories/Parse/Dispatch.vos theories/Parse/Dispatch_proofs.vos
